@@ -1,10 +1,232 @@
+import ScenicModel.Gen.Frames
+import ScenicModel.Model.Frames
 import Driver.Util
-/-! line protocol for the C07 model (stub: replaced when the property's model is built) -/
-namespace Driver.C07
-open Driver
+/-! line protocol for the frame model (C07), run at `α = Rat`.
 
+Numbers are `num/den` rationals. Orientations come in as (not necessarily unit) quaternions
+`w x y z`, angles as half-angle pairs `a b` (the angle is `2·atan2(b, a)`); orientations go out as the
+9 entries of the rotation matrix (row major), angles as `cos sin`.
+Square-root witnesses (`h = hypot(dx,dy)`, `rho = hypot(dx,dy,dz)`) are supplied by the caller and
+checked here (`bad-witness` otherwise). -/
+namespace Driver.C07
+open Driver Scenic.Frames
+
+abbrev Q := Rat
+
+def showV (v : Vec3 Q) : String := s!"{showRat v.x} {showRat v.y} {showRat v.z}"
+def showM (m : Mat3 Q) : String := s!"{showV m.r0} {showV m.r1} {showV m.r2}"
+def showA (a : Ang Q) : String := s!"{showRat a.c} {showRat a.s}"
+
+def vec : List Q → Option (Vec3 Q × List Q)
+  | x :: y :: z :: r => some (⟨x, y, z⟩, r)
+  | _ => none
+
+def dims : List Q → Option (Dims Q × List Q)
+  | x :: y :: z :: r => some (⟨x, y, z⟩, r)
+  | _ => none
+
+/-- quaternion `w x y z` (non-zero) -> rotation matrix -/
+def ori : List Q → Option (Mat3 Q × List Q)
+  | w :: x :: y :: z :: r =>
+    let q : Quat Q := ⟨w, x, y, z⟩
+    if q.normSq = 0 then none else some (q.toMat, r)
+  | _ => none
+
+def quat : List Q → Option (Quat Q × List Q)
+  | w :: x :: y :: z :: r =>
+    let q : Quat Q := ⟨w, x, y, z⟩
+    if q.normSq = 0 then none else some (q, r)
+  | _ => none
+
+/-- half-angle pair `a b` -> `(cos, sin)` -/
+def ang : List Q → Option (Ang Q × List Q)
+  | a :: b :: r => if a * a + b * b = 0 then none else some (Ang.ofHalf a b, r)
+  | _ => none
+
+def num : List Q → Option (Q × List Q)
+  | a :: r => some (a, r)
+  | _ => none
+
+def dirOf : String → Option Dir
+  | "left" => some .left | "right" => some .right | "ahead" => some .ahead
+  | "behind" => some .behind | "above" => some .above | "below" => some .below
+  | _ => none
+
+def distOf (kind : String) (xs : List Q) : Option (Dist Q × List Q) :=
+  match kind, xs with
+  | "none", r => some (.none, r)
+  | "s", d :: r => some (.scalar d, r)
+  | "v", x :: y :: z :: r => some (.vector ⟨x, y, z⟩, r)
+  | _, _ => none
+
+/-- `h ≥ 0 ∧ h² = x² + y²` -/
+def okH (d : Vec3 Q) (h : Q) : Bool := decide (0 ≤ h) && decide (h * h = d.x * d.x + d.y * d.y)
+def okRho (d : Vec3 Q) (h rho : Q) : Bool := decide (0 ≤ rho) && decide (rho * rho = h * h + d.z * d.z)
+
+def argOf (kind : String) (xs : List Q) : Option (Arg Q × List Q) :=
+  match kind with
+  | "vec" => (vec xs).map fun (v, r) => (.vec v, r)
+  | "heading" => (ang xs).map fun (a, r) => (.heading a, r)
+  | "orient" => (ori xs).map fun (m, r) => (.orient m, r)
+  | "opoint" => do
+    let (p, r) ← vec xs
+    let (o, r) ← ori r
+    let (cp, r) ← num r
+    if cp = 0 then none else some (.opoint p o (yawOf o cp), r)
+  | _ => none
+
+def showRel : RelResult Q → String
+  | .vec v => s!"vec {showV v}"
+  | .heading a => s!"heading {showA a}"
+  | .orient m => s!"orient {showM m}"
+  | .opoint p o => s!"opoint {showV p} {showM o}"
+  | .typeError => "typeerror"
+
+/-- `following` through a piecewise-constant field (orientation `a` where `x < x0`, `b` elsewhere);
+    also reports how close the visited points come to the discontinuity -/
+def followOp (x0 : Q) (a b : Mat3 Q) (p : Vec3 Q) (dist : Q) (minSteps : Nat) (stepSize : Q) : String :=
+  let n := followNumSteps minSteps dist stepSize
+  let field := fun (q : Vec3 Q) => if q.x < x0 then a else b
+  let step := dist / (n : Q)
+  let res := following field step n p
+  let pts := (List.range (n + 1)).map fun k => followSteps field step k p
+  let margin := pts.foldl (fun m q => min m (if q.x < x0 then x0 - q.x else q.x - x0)) (1000000 : Q)
+  s!"{n} {showRat margin} {showV res.1} {showM res.2}"
+
+def handleSpec (op : String) (strs : List String) (xs : List Q) : Option String :=
+  match op, strs with
+  | "dirobj", [k, dk] => do
+    let k ← dirOf k
+    let (rp, r) ← vec xs; let (ro, r) ← ori r; let (rd, r) ← dims r; let (sd, r) ← dims r
+    let (ct, r) ← num r; let (dist, _) ← distOf dk r
+    let res := dirObject k rp ro rd sd ct dist
+    let o : OPoint Q := ⟨res.1, res.2, Ang.zero, Ang.zero, Ang.zero⟩
+    some s!"{showV res.1} {showM res.2} {showM o.orientation}"
+  | "dirop", [k, dk] => do
+    let k ← dirOf k
+    let (rp, r) ← vec xs; let (ro, r) ← ori r; let (sd, r) ← dims r; let (dist, _) ← distOf dk r
+    let res := dirOPoint k rp ro sd dist
+    let o : OPoint Q := ⟨res.1, res.2, Ang.zero, Ang.zero, Ang.zero⟩
+    some s!"{showV res.1} {showM res.2} {showM o.orientation}"
+  | "dirvec", [k, dk] => do
+    let k ← dirOf k
+    let (p, r) ← vec xs; let (so, r) ← ori r; let (sd, r) ← dims r; let (dist, _) ← distOf dk r
+    some (showV (dirVector k p so sd dist))
+  | "beyond", [kind, fk] => do
+    -- kind: v (vector offset) | s (scalar offset); fk: vec | op (the `from` argument is an oriented point)
+    let (p, r) ← vec xs
+    let (off, r) ← (if kind == "s" then (num r).map fun (d, r) => (beyondScalar d, r) else vec r)
+    let (f, r) ← vec r; let (h, r) ← num r; let (rho, r) ← num r
+    let fo ← (if fk == "op" then (ori r).map fun (o, _) => some o else some none)
+    if okH (p.sub f) h && okRho (p.sub f) h rho then
+      some s!"{showV (beyond p off f h rho)} {showM (beyondParent Scenic.Gen.Frames.beyondInheritsFromOrientation fo)}"
+    else some "bad-witness"
+  | "offsetby", [] => do
+    let (p, r) ← vec xs; let (o, r) ← ori r; let (off, _) ← vec r
+    let res := offsetBy p o off
+    some s!"{showV res.1} {showM res.2}"
+  | "offsetalong", [] => do
+    let (p, r) ← vec xs; let (o, r) ← ori r; let (hd, r) ← ori r; let (off, _) ← vec r
+    let res := offsetAlong p o hd off
+    some s!"{showV res.1} {showM res.2}"
+  | "on", [] => do
+    let (p, r) ← vec xs; let (ct, r) ← num r; let (b, r) ← vec r
+    match r with
+    | [] => some (showV (onPosition p ct b none))
+    | _ => do let (o, _) ← ori r; some (showV (onPosition p ct b (some o)))
+  | "facing", [] => do
+    let (p, r) ← ori xs; let (t, _) ← ori r
+    let l := facingLocal p t
+    some s!"{showM l} {showM (p.mul l)}"
+  | "facingtoward", [away, directly] => do
+    let (p, r) ← ori xs; let (pos, r) ← vec r; let (t, r) ← vec r; let (h, r) ← num r; let (rho, _) ← num r
+    let dir := facingDirection (away == "away") p pos t
+    if !(okH dir h && okRho dir h rho) then some "bad-witness" else
+    let yaw := azimuthOf dir h
+    let pitch := if directly == "direct" then altitudeOf dir h rho else Ang.zero
+    some s!"{showA yaw} {showA pitch} {showM (p.mul (euler yaw pitch Ang.zero))}"
+  | "appfacing", [] => do
+    let (p, r) ← ori xs; let (pos, r) ← vec r; let (f, r) ← vec r; let (hd, r) ← ang r; let (h, _) ← num r
+    let flag := Scenic.Gen.Frames.apparentlyFacingUsesParent
+    let d := if flag then p.transpose.mulVec (pos.sub f) else pos.sub f
+    if !(okH d h) then some "bad-witness" else
+    some (showA (apparentlyFacingYaw flag p pos f hd h))
+  | "side", [name] => do
+    let (p, r) ← vec xs; let (o, r) ← ori r; let (d, _) ← dims r
+    match sidePoint p o d name with
+    | some q => some s!"{showV q.position} {showM q.orientation}"
+    | none => some "no-such-side"
+  | "corners", [] => do
+    let (p, r) ← vec xs; let (o, r) ← ori r; let (d, _) ← dims r
+    some (" ".intercalate ((corners p o d).map showV))
+  | "relto", [kx, ky] => do
+    let (x, r) ← argOf kx xs; let (y, _) ← argOf ky r
+    some (showRel (relativeTo x y))
+  | "follow", [] => do
+    let (x0, r) ← num xs; let (a, r) ← ori r; let (b, r) ← ori r; let (p, r) ← vec r
+    let (dist, r) ← num r; let (minSteps, r) ← num r; let (stepSize, _) ← num r
+    if stepSize ≤ 0 || minSteps.den != 1 || minSteps < 1 then none else
+    some (followOp x0 a b p dist minSteps.num.toNat stepSize)
+  | _, _ => none
+
+def handleOps (op : String) (strs : List String) (xs : List Q) : Option String :=
+  match op, strs with
+  | "distsq", [] => do
+    let (a, r) ← vec xs; let (b, _) ← vec r
+    some (showRat (distSq a b))
+  | "azimuth", [] => do
+    let (a, r) ← vec xs; let (b, r) ← vec r; let (h, _) ← num r
+    if okH (b.sub a) h then some (showA (azimuthTo a b h)) else some "bad-witness"
+  | "altitude", [] => do
+    let (a, r) ← vec xs; let (b, r) ← vec r; let (h, r) ← num r; let (rho, _) ← num r
+    if okH (b.sub a) h && okRho (b.sub a) h rho then some (showA (altitudeTo a b h rho)) else some "bad-witness"
+  | "relheading", [] => do
+    let (x, r) ← ang xs; let (y, _) ← ang r
+    some (showA (relativeHeading x y))
+  | "appheading", [] => do
+    let (p, r) ← vec xs; let (hd, r) ← ang r; let (b, r) ← vec r; let (h, _) ← num r
+    if okH (p.sub b) h then some (showA (apparentHeading p hd b h)) else some "bad-witness"
+  | "distpast", [] => do
+    let (p, r) ← vec xs; let (hd, r) ← ang r; let (v, _) ← vec r
+    some (showRat (distancePast p hd v))
+  | "euler", [] => do
+    let (y, r) ← ang xs; let (p, r) ← ang r; let (ro, _) ← ang r
+    some (showM (euler y p ro))
+  | "eulerx", [] => do
+    -- Euler extraction of fromEuler(y, p, r): the witness cos(pitch) is rational by construction
+    let (y, r) ← ang xs; let (p, r) ← ang r; let (ro, _) ← ang r
+    let m := euler y p ro
+    if p.c = 0 then some "gimbal" else
+    some s!"{showA (yawOf m p.c)} {showA (pitchOf m p.c)} {showA (rollOf m p.c)}"
+  | "qmul", [] => do
+    let (a, r) ← quat xs; let (b, _) ← quat r
+    some s!"{showM (a.mul b).toMat} {showM (a.toMat.mul b.toMat)}"
+  | "qinv", [] => do
+    let (a, _) ← quat xs
+    some (showM a.conj.toMat)
+  | "orim", [] => do
+    let (a, _) ← ori xs
+    some (showM a)
+  | "qapply", [] => do
+    let (a, r) ← ori xs; let (v, _) ← vec r
+    some (showV (a.mulVec v))
+  | "rotatedby", [] => do
+    let (v, r) ← vec xs; let (a, _) ← ang r
+    some (showV (rotatedBy v a))
+  | _, _ => none
+
+/-- tokens that parse as rationals are numbers, the others are names (all names come first) -/
 def handle : List String → String
-  | _ => "bad-op"
+  | [] => "bad-op"
+  | op :: rest =>
+    let strs := rest.takeWhile fun t => (parseRat t).isNone
+    let numsS := rest.dropWhile fun t => (parseRat t).isNone
+    match numsS.mapM parseRat with
+    | none => "bad-op"
+    | some xs =>
+      match handleSpec op strs xs with
+      | some s => s
+      | none => (handleOps op strs xs).getD "bad-op"
 
 end Driver.C07
 
